@@ -311,7 +311,7 @@ func (p *Parser) ParseUnaryExpression() ast.Expression {
 	p.NextToken()
 	expression.Right = p.expressionParseFn(p, UNARY)
 	if (expression.Token.Type == token.INCREMENT || expression.Token.Type == token.DECREMENT) && !isAssignmentTarget(expression.Right) {
-		p.AddErrorAtToken("invalid increment/decrement operand", expression.Token)
+		p.AddError("invalid increment/decrement operand") // at the end of the operand
 	}
 	return expression
 }
